@@ -43,7 +43,9 @@ RULE = ("pipelines of harness/pipegen.py (1..5 structural functions; every outpu
         "invocation of the run (function, call index) as the failing one x exception kinds {ValueError('m'), "
         "KeyError('k'), CustomError('p','q') (importable, picklable), RuntimeError()} x entry points pipeline(...), "
         "run(full_output=..), func(o)(...), map(parallel=False), map(executor=ThreadPoolExecutor), both also with "
-        "output_names=<all outputs> (map then executes a subpipeline copy); thorough adds "
+        "output_names=<all outputs> (map then executes a subpipeline copy), and a process-pool smoke set (5 requests x "
+        "first/middle/last invocation x every kind x explicit ProcessPoolExecutor / parallel=True / map_async, user "
+        "functions as non-importable closures); thorough adds "
         "map(executor=ProcessPoolExecutor), map(parallel=True) with pipefunc's own pool, map_async with thread and "
         "process pools, and every kind for every invocation (quick rotates the kinds); + a few runs without failure; "
         "non-trivial = >= 2 invocations in the run; distinct by (pipeline/request, failing invocation, kind, entry)")
@@ -265,7 +267,7 @@ def _run_map_body(c, tmp, limit):
     log = FileLog(os.path.join(tmp, "calls.log"))
     folder = os.path.join(tmp, "run")
     try:
-        pl = failsym.build_map(req, log, c["tgt"], c["exc"])
+        pl = failsym.build_map(req, log, c["tgt"], c["exc"], local=bool(c.get("local")))
     except Exception:  # noqa: BLE001
         return ["bad-case"]
     exc = None
@@ -469,8 +471,12 @@ def _gen_map(rng, tier, n_req, modes, max_calls, shared_share):
                         # a caller-owned executor may still be running tasks of the failing generation when map
                         # raises and persists the shared dict: what is on disk then depends on timing
                         r2["storage"] = "file_array"
+                    # process pools: the user functions are non-importable closures for 3 cases out of 4 (what
+                    # the worker sends back is pickled with the standard pickle); in-process: 1 out of 4
+                    local = rng.random() < (0.25 if INPROC[mode] else 0.75)
                     cases.append({"kind": "map", "req": r2, "gens": gens, "mode": mode, "tgt": tgt,
-                                  "ffn": tgt.split("(", 1)[0], "exc": kind, "ncalls": len(calls), "idx": i})
+                                  "ffn": tgt.split("(", 1)[0], "exc": kind, "ncalls": len(calls), "idx": i,
+                                  "local": local})
         if rng.random() < 0.3:
             req["storage"] = rng.choice(["dict", "file_array"])
             m0 = rng.choice(modes).split("|")[0]
@@ -480,11 +486,42 @@ def _gen_map(rng, tier, n_req, modes, max_calls, shared_share):
     return cases
 
 
+def _gen_pool_smoke(rng, n_req):
+    """Quick tier: a SMALL number of real process-pool runs -- explicit ProcessPoolExecutor and pipefunc's own
+    pool (parallel=True), sync and one async -- for the first, a middle and the last invocation of a few requests,
+    EVERY exception kind, user functions as non-importable closures."""
+    cases = []
+    done = tries = 0
+    while done < n_req and tries < 60 * n_req:
+        tries += 1
+        req = mapgen.gen_request(rng, max_funcs=2, max_size=2)
+        if mapgen.request_size(req) > 8:
+            continue
+        try:
+            gens, calls, _ = _probe_request(req)
+        except Exception:  # noqa: BLE001
+            continue
+        if not (2 <= len(calls) <= 8) or not any(f.get("spec") for f in req["funcs"]):
+            continue
+        done += 1
+        picks = sorted({0, len(calls) // 2, len(calls) - 1})
+        for j, i in enumerate(picks):
+            for k, kind in enumerate(KINDS):
+                mode = ["proc", "procdefault", "proc", "procdefault", "aproc"][(done + j + k) % 5]
+                r2 = json.loads(json.dumps(req))
+                r2["storage"] = "dict" if (j + k) % 2 else "file_array"
+                cases.append({"kind": "map", "req": r2, "gens": gens, "mode": mode, "tgt": calls[i],
+                              "ffn": calls[i].split("(", 1)[0], "exc": kind, "ncalls": len(calls), "idx": i,
+                              "local": True})
+    return cases
+
+
 def generate(rng, tier, mult):
     if tier == "quick":
         cases = _gen_pipe(rng, tier, 120 * mult)
         cases += _gen_map(rng, tier, 100 * mult, ["seq", "thread", "seqsub|threadsub"], max_calls=14,
                           shared_share=0.04)
+        cases += _gen_pool_smoke(rng, 5 * mult)
     else:
         cases = _gen_pipe(rng, tier, 220 * mult)
         cases += _gen_map(rng, tier, 38 * mult, ["seq", "thread", "proc", "procdefault", "athread", "aproc",
@@ -498,7 +535,8 @@ def nontrivial_key(c):
         return None
     if c["kind"] == "pipe":
         return ("pipe", c["p"], c["o"], c["tgt"], c["exc"], c["entry"], c["full"])
-    return ("map", c["req"]["funcs"], c["req"]["inputs"], c["req"]["storage"], c["mode"], c["tgt"], c["exc"])
+    return ("map", c["req"]["funcs"], c["req"]["inputs"], c["req"]["storage"], c["mode"], c["tgt"], c["exc"],
+            bool(c.get("local")))
 
 
 def distribution(c):
@@ -510,6 +548,7 @@ def distribution(c):
         d["storage"] = c["req"]["storage"]
         d["ngens"] = len(c["gens"])
         d["first_call"] = c["idx"] == 0
+        d["local_funcs"] = bool(c.get("local"))
     return d
 
 
